@@ -1354,4 +1354,130 @@ theorem fuse_plain {op : FuseOp} (hop : op ≠ .ecm) (same : Bool) {b1 b2 a1 a2 
   rw [fuse_lift hop same h1 h2, simplexQ_plain_ideal op h1 h2 p1 p2,
     baseRateQ_plain_ideal op same h1.hu h1.u_le_one h2.hu h2.u_le_one p1 p2 hsc]
 
+/-- the fused base rate is a probability distribution when the `ulps_eq!` shortcut is only taken at
+    equal entries (automatic for a shared base rate) -/
+theorem baseRateQ_dist (op : FuseOp) (same : Bool) {b1 b2 a1 a2 : Fin n → ℚ} {u1 u2 : ℚ}
+    (h1 : WF b1 u1 a1) (h2 : WF b2 u2 a2)
+    (hsc : same = false → ∀ i, sc f a1 a2 i = true → a1 i = a2 i) :
+    (∀ i, 0 ≤ baseRateQ f op same a1 u1 a2 u2 i) ∧ ∑ i, baseRateQ f op same a1 u1 a2 u2 i = 1 := by
+  refine ⟨baseRateQ_nonneg f op same h1.hu h1.swf.u_le_one h2.hu h2.swf.u_le_one h1.ha0 h2.ha0, ?_⟩
+  cases same
+  · exact baseRateQ_sum f op false h1.hu h1.swf.u_le_one h2.hu h2.swf.u_le_one h1.ha h2.ha (hsc rfl)
+  · rw [baseRateQ_same]; exact h1.ha
+
+/-- ECm fusion of plain well-formed opinions (shortcut only at equal entries): uncertainty maximisation
+    (`C09.bmax`, `C09.uhat`) of the ideal ACm simplex under the ideal fused base rate -/
+theorem fuse_plain_ecm (same : Bool) {b1 b2 a1 a2 : Fin n → ℚ} {u1 u2 : ℚ}
+    (h1 : WF b1 u1 a1) (h2 : WF b2 u2 a2) (p1 : Plain f u1) (p2 : Plain f u2)
+    (hsc : same = false → ∀ i, sc f a1 a2 i = true → a1 i = a2 i) :
+    fuse .ecm same (⟨liftT b1, XQ.fin u1, liftT a1⟩ : Opinion (XQ f) n) ⟨liftT b2, XQ.fin u2, liftT a2⟩
+      = ⟨liftT (SLV.Props.C09.bmax f (idealS .ecm b1 u1 b2 u2).1
+            (if same then a1 else idealA .ecm a1 u1 a2 u2) (idealS .ecm b1 u1 b2 u2).2),
+          XQ.fin (SLV.Props.C09.uhat f (idealS .ecm b1 u1 b2 u2).1
+            (if same then a1 else idealA .ecm a1 u1 a2 u2) (idealS .ecm b1 u1 b2 u2).2),
+          liftT (if same then a1 else idealA .ecm a1 u1 a2 u2)⟩ := by
+  obtain ⟨hA0, hA⟩ := baseRateQ_dist (f := f) .ecm same h1 h2 hsc
+  rw [fuse_ecm_lift same h1.swf h2.swf hA0 hA, simplexQ_plain_ideal .ecm h1.swf h2.swf p1 p2,
+    baseRateQ_plain_ideal .ecm same h1.hu h1.swf.u_le_one h2.hu h2.swf.u_le_one p1 p2 hsc]
+
+/-- the ideal fused base rate is a distribution (plain operands, shortcut only at equal entries) -/
+theorem ideal_dist (op : FuseOp) (same : Bool) {b1 b2 a1 a2 : Fin n → ℚ} {u1 u2 : ℚ}
+    (h1 : WF b1 u1 a1) (h2 : WF b2 u2 a2) (p1 : Plain f u1) (p2 : Plain f u2)
+    (hsc : same = false → ∀ i, sc f a1 a2 i = true → a1 i = a2 i) :
+    (∀ i, 0 ≤ (if same then a1 else idealA op a1 u1 a2 u2) i) ∧
+      ∑ i, (if same then a1 else idealA op a1 u1 a2 u2) i = 1 := by
+  rw [← baseRateQ_plain_ideal op same h1.hu h1.swf.u_le_one h2.hu h2.swf.u_le_one p1 p2 hsc]
+  exact baseRateQ_dist op same h1 h2 hsc
+
+/-- the ideal fused simplex is well-formed -/
+theorem idealS_swf (f : Fmt) (op : FuseOp) {b1 b2 : Fin n → ℚ} {u1 u2 : ℚ} (h1 : SWF b1 u1)
+    (h2 : SWF b2 u2) (p1 : Plain f u1) (p2 : Plain f u2) :
+    SWF (idealS op b1 u1 b2 u2).1 (idealS op b1 u1 b2 u2).2 := by
+  rw [← simplexQ_plain_ideal op h1 h2 p1 p2]; exact simplexQ_swf f op h1 h2
+
+/-! ### operands inside the tolerance bands are treated as exactly vacuous / dogmatic -/
+
+/-- ACm / ECm / Wgh: a guard-vacuous left operand is handled exactly like the vacuous opinion -/
+theorem simplexQ_vac_left {op : FuseOp} (hop : op ≠ .avg) (b1 b2 : Fin n → ℚ) {u1 : ℚ} (u2 : ℚ)
+    (v1 : GVac f u1) : simplexQ f op b1 u1 b2 u2 = simplexQ f op (fun _ => 0) 1 b2 u2 := by
+  have nd : ¬ GDog f u1 := fun d => d.not_GVac v1
+  have nd1 : ¬ GDog f 1 := not_GDog_one
+  have vv : GVac f 1 := GVac_one
+  unfold simplexQ
+  cases op <;> first | exact absurd rfl hop | simp [nd, nd1, v1, vv]
+
+theorem simplexQ_vac_right {op : FuseOp} (hop : op ≠ .avg) (b1 b2 : Fin n → ℚ) (u1 : ℚ) {u2 : ℚ}
+    (v2 : GVac f u2) : simplexQ f op b1 u1 b2 u2 = simplexQ f op b1 u1 (fun _ => 0) 1 := by
+  have nd : ¬ GDog f u2 := fun d => d.not_GVac v2
+  have nd1 : ¬ GDog f 1 := not_GDog_one
+  have vv : GVac f 1 := GVac_one
+  unfold simplexQ
+  cases op <;> first | exact absurd rfl hop | simp [nd, nd1, v2, vv]
+
+theorem baseRateQ_vac_left {op : FuseOp} (hop : op ≠ .avg) (same : Bool) (a1 a2 : Fin n → ℚ) {u1 : ℚ}
+    (u2 : ℚ) (v1 : GVac f u1) : baseRateQ f op same a1 u1 a2 u2 = baseRateQ f op same a1 1 a2 u2 := by
+  have nd : ¬ GDog f u1 := fun d => d.not_GVac v1
+  have nd1 : ¬ GDog f 1 := not_GDog_one
+  have vv : GVac f 1 := GVac_one
+  unfold baseRateQ
+  cases op <;> first | exact absurd rfl hop | simp [nd, nd1, v1, vv]
+
+theorem baseRateQ_vac_right {op : FuseOp} (hop : op ≠ .avg) (same : Bool) (a1 a2 : Fin n → ℚ) (u1 : ℚ)
+    {u2 : ℚ} (v2 : GVac f u2) : baseRateQ f op same a1 u1 a2 u2 = baseRateQ f op same a1 u1 a2 1 := by
+  have nd : ¬ GDog f u2 := fun d => d.not_GVac v2
+  have nd1 : ¬ GDog f 1 := not_GDog_one
+  have vv : GVac f 1 := GVac_one
+  unfold baseRateQ
+  cases op <;> first | exact absurd rfl hop | simp [nd, nd1, v2, vv]
+
+theorem fuseQ_vac_left {op : FuseOp} (hop : op ≠ .avg) (same : Bool) (b1 a1 b2 a2 : Fin n → ℚ) {u1 : ℚ}
+    (u2 : ℚ) (v1 : GVac f u1) :
+    fuseQ f op same b1 u1 a1 b2 u2 a2 = fuseQ f op same (fun _ => 0) 1 a1 b2 u2 a2 := by
+  unfold fuseQ
+  rw [simplexQ_vac_left hop b1 b2 u2 v1, baseRateQ_vac_left hop same a1 a2 u2 v1]
+
+theorem fuseQ_vac_right {op : FuseOp} (hop : op ≠ .avg) (same : Bool) (b1 a1 b2 a2 : Fin n → ℚ) (u1 : ℚ)
+    {u2 : ℚ} (v2 : GVac f u2) :
+    fuseQ f op same b1 u1 a1 b2 u2 a2 = fuseQ f op same b1 u1 a1 (fun _ => 0) 1 a2 := by
+  unfold fuseQ
+  rw [simplexQ_vac_right hop b1 b2 u1 v2, baseRateQ_vac_right hop same a1 a2 u1 v2]
+
+/-- Avg only tests `is_dogmatic`: for Avg "plain" can be weakened to `u = 0 ∨ ε < u` -/
+def PlainD (f : Fmt) (u : ℚ) : Prop := u = 0 ∨ f.eps < u
+
+theorem Plain.plainD {u : ℚ} (h : Plain f u) : PlainD f u := by
+  have := XQ.eps_lt f
+  rcases h with h | h | h
+  · exact Or.inl h
+  · exact Or.inr (by rw [h]; linarith)
+  · exact Or.inr h.1
+
+theorem PlainD.GDog_iff {u : ℚ} (h : PlainD f u) : GDog f u ↔ u = 0 := by
+  have he := XQ.eps_pos f
+  constructor
+  · intro hd
+    rcases h with h | h
+    · exact h
+    · exfalso; have := (abs_le.mp hd).2; linarith
+  · rintro rfl; exact GDog_zero
+
+theorem simplexQ_avg_plainD {b1 b2 : Fin n → ℚ} {u1 u2 : ℚ} (h1 : SWF b1 u1) (h2 : SWF b2 u2)
+    (p1 : PlainD f u1) (p2 : PlainD f u2) :
+    simplexQ f .avg b1 u1 b2 u2 = idealS .avg b1 u1 b2 u2 := by
+  rw [← simplexQ0_eq_ideal .avg h1 h2]
+  unfold simplexQ simplexQ0
+  simp only [p1.GDog_iff, p2.GDog_iff]
+
+theorem baseRateQ_avg_plainD (same : Bool) {a1 a2 : Fin n → ℚ} {u1 u2 : ℚ}
+    (h10 : 0 ≤ u1) (h11 : u1 ≤ 1) (h20 : 0 ≤ u2) (h21 : u2 ≤ 1)
+    (p1 : PlainD f u1) (p2 : PlainD f u2)
+    (hsc : same = false → ∀ i, sc f a1 a2 i = true → a1 i = a2 i) :
+    baseRateQ f .avg same a1 u1 a2 u2 = if same then a1 else idealA .avg a1 u1 a2 u2 := by
+  cases same
+  · rw [← baseRateQ0_eq_ideal .avg h10 h11 h20 h21 (hsc rfl)]
+    unfold baseRateQ baseRateQ0
+    simp only [p1.GDog_iff, p2.GDog_iff]
+    simp
+  · rw [baseRateQ_same]; simp
+
 end SLV
